@@ -248,7 +248,7 @@ func crossFileState(r *an.Run, m *runModel, rule string) {
 			return "position table shared by patches and targets (append-only, locked)"
 		case strings.HasSuffix(s, "log.Logger"):
 			return "logger"
-		case strings.HasSuffix(s, "patchRunner"):
+		case isRunnerType(r, t):
 			return "runner (compiled patches, its own error list)"
 		case strings.HasSuffix(s, "options"), strings.HasSuffix(s, "mainCmd"):
 			return "configuration, read only"
